@@ -635,4 +635,6 @@ WITNESSES = [
      "old": "\t\tmask = ~(mask >> number);", "new": "\t\tmask = ~(mask >> (number - 1));"},
     {"id": "C01.w18-second-word-from-the-first", "rule": "C01.R7", "file": "rtrlib/lib/ipv6.c",
      "old": "\t\tresult.addr[1] = lrtr_get_bits(val->addr[1], fr, q);", "new": "\t\tresult.addr[1] = lrtr_get_bits(val->addr[0], fr, q);"},
+    {"id": "C01.w19-every-reason-from-the-first-element", "rule": "C01.R4", "file": TP,
+     "old": "\t\trecords[i].asn = data->ary[i].asn;", "new": "\t\trecords[i].asn = data->ary[0].asn;"},
 ]
